@@ -1391,7 +1391,11 @@ class Py2Cpp(ITranspiler):
 		return self.proc_binary_operation(node, elements)
 
 	def on_comparison(self, node: defs.Comparison, elements: list[str]) -> str:
-		return self.proc_binary_operation(node, elements)
+		# XXX C++ではビット演算(|, ^, &)より比較演算の優先度が高いため、ビット演算の項は括弧で囲う
+		node_of_elements = node.elements
+		bitwise_types = (defs.OrBitwise, defs.XorBitwise, defs.AndBitwise)
+		grouped = [f'({element})' if node_of_elements[index].is_a(*bitwise_types) else element for index, element in enumerate(elements)]
+		return self.proc_binary_operation(node, grouped)
 
 	def on_or_bitwise(self, node: defs.OrBitwise, elements: list[str]) -> str:
 		return self.proc_binary_operation(node, elements)
